@@ -37,6 +37,7 @@ var (
 	ErrFieldNotFound     = errors.New("field not found")
 	ErrTableAlreadyExist = errors.New("table already exists")
 	ErrTableNotExist     = errors.New("table does not exist")
+	ErrSystemTable       = errors.New("system tables cannot be modified")
 	ErrTypeMismatch      = errors.New("types do not match")
 	ErrIntOutOfRange     = errors.New("integer value out of range")
 )
@@ -866,8 +867,19 @@ func (rs *RelationService) scanRelation(fileOffset uint64, r *Relation, fields F
 	return results, nil
 }
 
+// isSystemTable reports whether tableName is one of the catalog tables. Their
+// rows are maintained by CREATE TABLE and read back without validation, so
+// statements may read them but not change them.
+func isSystemTable(tableName string) bool {
+	return tableName == pageTableName || tableName == schemaTableName
+}
+
 func (rs *RelationService) Insert(tableName string, cols []string, vals []interface{}) (WALBatch, error) {
 	var walLogs WALBatch
+
+	if isSystemTable(tableName) {
+		return walLogs, ErrSystemTable
+	}
 
 	fileOffset, err := rs.getRelationFileOffset(tableName)
 	if err != nil {
@@ -946,6 +958,10 @@ func (rs *RelationService) Insert(tableName string, cols []string, vals []interf
 func (rs *RelationService) Update(tableName string, rowID uint32, cols []string, updateSrc []interface{}) (WALBatch, error) {
 	var walLogs WALBatch
 
+	if isSystemTable(tableName) {
+		return walLogs, ErrSystemTable
+	}
+
 	fileOffset, err := rs.getRelationFileOffset(tableName)
 	if err != nil {
 		return walLogs, err
@@ -1013,6 +1029,10 @@ func (rs *RelationService) Update(tableName string, rowID uint32, cols []string,
 
 func (rs *RelationService) MarkDeleted(tableName string, rowID uint32) (WALBatch, error) {
 	var walLogs WALBatch
+
+	if isSystemTable(tableName) {
+		return walLogs, ErrSystemTable
+	}
 
 	fileOffset, err := rs.getRelationFileOffset(tableName)
 	if err != nil {
